@@ -886,6 +886,8 @@ def run(ctx):
                 "(top-level, dotted), http body, http query parameter (REQUIRED set/unset, nested, beside a body), routing field, rpc name, proto file name}; "
                 "a proto file named by each keyword / control parameter holding a whole API (request, response, LRO types; the same and another reserved "
                 "word as flattened parameter, path variable, body field; flattened and request=, sync/asyncio gRPC and REST); "
+                "a types module named like a wrapper module the service code imports (operation, operation_async, pagers, extended_operation) x "
+                "{only LRO metadata there, everything there}: plain call, pager, LRO completed, sync/asyncio/REST; "
                 "every REST request is read back whole (path variables + query + body under the input descriptor); quick samples words, thorough enumerates all; "
                 "distinct by (word, position)")
     t2(ctx)
@@ -972,7 +974,9 @@ CLAIM = dict(
          "query string and body under the original proto/JSON names (exhaustive in thorough).",
     technique="Lean 4 theorems + `decide` over translator-bridged finite tables; differential T2; exhaustive T3 enumeration word x position",
     design="7.12",
-    note="Module-alias collisions across packages: T3 (three shapes) and T3 of C01/C02 profiles, no theorem; alias of a keyword-named file's module "
+    note="Module-alias collisions between two proto modules: T3 (three shapes) and T3 of C01/C02 profiles, no theorem; between a proto module and a "
+         "wrapper module of the service code (`Service.names` over `ref_types`): theorems + T2 (`c12.svcnames`) + T3 (extended LRO itself is not "
+         "generated: `extended_operation.proto` only as a file name); names bound by the templates (retries, logging, re, ...) are findings/C01.json; alias of a keyword-named file's module "
          "against a flattened parameter of the same word: theorem + T2 (`c12.alias`) + T3. A module `class_` meeting the transport property of an "
          "RPC `Class` stays excluded (DESIGN §16). Dotted http path variables with a "
          "reserved segment and reserved non-terminal flattened segments are wrong at HEAD (counterexample theorems; findings).",
